@@ -39,6 +39,9 @@ F = [
  ("F36", ["C07"], "fixed", "ba485b3", "iterating a Polars Datetime column stored in milliseconds as DateTime<Millisecond> hits unreachable!() (the impl matches TimeUnit::Microseconds); a microsecond column is handed out relabelled as milliseconds", "(&Int64Chunked[..].into_datetime(Milliseconds)).titer::<DateTime<Millisecond>>()"),
  ("F37", ["C09"], "fixed", "493d864", "titer() of a Polars String column and of a Datetime column (all three units) keeps its initial size hint while being consumed (the F31 defect in the two impls that were not built from the numeric macro)", "(&StringChunked[\"a\"]).titer() after one next(): size_hint (1, Some(1)), 0 items left"),
  ("F38", ["C16"], "fixed", "dc806a3", "DateTime<Millisecond|Microsecond>::from(AnyValue::Datetime) of a finer unit delegates to polars' cast, which divides toward zero: pre-epoch instants move forward (ns -1 -> ms 0) while into_unit gives -1", "DateTime::<Millisecond>::from(AnyValue::Datetime(-1, Nanoseconds, None))"),
+ ("F39", ["C13"], "fixed", "fd3e805", "vpct_change(0) of an infinite element returns 0 instead of null (inf / inf - 1 is not a number): an oversight of the repair d01288e, which wrote the literal 0 for every non-null non-zero base", "[inf] vpct_change(0) -> [0.0]"),
+ ("F40", ["C16"], "fixed", "11e567f", "TryFrom<DateTime<Nanosecond>> for chrono::DateTime accepts the NaT sentinel: i64::MIN nanoseconds is a representable instant for chrono, so a NaT converts to the calendar value 1677-09-21 00:12:43.145224192 (the three coarser units fail by range)", "chrono::DateTime::<Utc>::try_from(DateTime::<Nanosecond>::nat()) -> Ok(1677-09-21T00:12:43.145224192Z)"),
+ ("F41", ["C11"], "fixed", "2cfeaf4", "vmean / mean accumulate the sum in the element type: an integer series whose sum leaves the type panics (checked build) or wraps although its mean is representable", "vec![1_400_000_000i32; 2].titer().vmean() -> attempt to add with overflow"),
  ("F34", ["C20"], "fixed", "86ca491", "half_life treats a null correlation inside the bisection as an exact hit and stops early", "ramp 0..9 mp=5 -> 6, expected 5"),
 ]
 out = {"_comment": "Genuine defects of Teamon9161/tevec found by the checks (DESIGN.md section 6). status=open: recorded, not repaired: the check prints KNOWN-FINDING and exits 0 for cases matching the narrow classifier compiled into the check under this id. status=fixed: repaired by the named commit in /repo; a fixed entry suppresses nothing. This file is never written at check run time.",
